@@ -3,6 +3,7 @@
    computes; Python computes in unbounded integers ([wrap] = identity). *)
 From Coq Require Import ZArith List Bool Sorted.
 From BT Require Import Model.SetOps Model.SetOpsSpec Proofs.SetOpsProofs.
+From BT Require Import Proofs.WrapProofs.
 Import ListNotations.
 Open Scope Z_scope.
 
@@ -66,3 +67,19 @@ Example C12_example :
   m_wunion idz (OMap [(1, 10); (4, 40)]) (OSet [4; 9]) 2 3 = (1, SMap [(1, 20); (4, 83); (9, 3)]) /\
   m_winter idz (OSet [4; 9]) (OMap [(1, 10); (4, 40)]) 2 3 = (1, SMap [(4, 122)]).
 Proof. vm_compute. split; reflexivity. Qed.
+
+(* what happens OUTSIDE that range (finding F10a, recorded not repaired): the C
+   flavour stores the exact v1*w1 + v2*w2 reduced modulo 2^w into the value
+   type -- wrap-around, precisely, and nothing else; in particular the stored
+   value is always inside the type (the Python flavour stores the exact value,
+   F10b).  kind 1/2 = signed 32/64 bit, 3/4 = unsigned. *)
+Theorem C12_overflow_is_reduction : forall kind w1 w2 v1 v2 : Z,
+  wmerge (wrap_of kind) w1 w2 v1 v2 = wrap_of kind (v1 * w1 + v2 * w2).
+Proof. exact WrapProofs.wmerge_is_reduction. Qed.
+Print Assumptions C12_overflow_is_reduction.
+
+Theorem C12_reduction_in_type : forall x : Z,
+  (- 2^31 <= wrap_of 1 x < 2^31) /\ (- 2^63 <= wrap_of 2 x < 2^63) /\
+  (0 <= wrap_of 3 x < 2^32) /\ (0 <= wrap_of 4 x < 2^64).
+Proof. exact WrapProofs.wrap_of_range. Qed.
+Print Assumptions C12_reduction_in_type.
